@@ -18,6 +18,10 @@ pub struct Parser<'a> {
     /// This is used in for-loop init expressions where 'in' separates
     /// the variable from the iterable (for x in obj).
     no_in: bool,
+    /// Current nesting depth of the recursive-descent entry points (statements, expressions,
+    /// types, patterns). Bounded so that hostile or generated input is refused with a
+    /// SyntaxError instead of overflowing the native stack.
+    nesting: u32,
     /// Start offsets of `(` tokens for which the speculative arrow-parameter parse already
     /// failed. Re-parsing an enclosing construct must not repeat the attempt, otherwise an
     /// error deep inside nested parentheses doubles the work at every level.
@@ -26,6 +30,11 @@ pub struct Parser<'a> {
     /// length of the group, so it is done once per group even when the group is re-parsed).
     paren_follow_cache: FxHashMap<usize, Option<TokenKind>>,
 }
+
+/// Maximum combined nesting of statements / expressions / types / patterns.
+/// A parenthesised expression costs three levels, so this allows several hundred real
+/// nesting levels while staying far below what an ordinary thread stack can hold.
+const MAX_NESTING: u32 = 1200;
 
 impl<'a> Parser<'a> {
     pub fn new(source: &'a str, string_dict: &'a mut StringDict) -> Self {
@@ -36,9 +45,24 @@ impl<'a> Parser<'a> {
             current,
             previous: Token::eof(0, 1, 1),
             no_in: false,
+            nesting: 0,
             failed_arrow_starts: FxHashSet::default(),
             paren_follow_cache: FxHashMap::default(),
         }
+    }
+
+    /// Enter one level of recursive descent; fails with a SyntaxError when the source is
+    /// nested deeper than `MAX_NESTING`.
+    fn enter_nesting(&mut self) -> Result<(), JsError> {
+        if self.nesting >= MAX_NESTING {
+            return Err(JsError::syntax_error(
+                "Nesting too deep",
+                self.current.span.line,
+                self.current.span.column,
+            ));
+        }
+        self.nesting += 1;
+        Ok(())
     }
 
     /// Helper to intern a string in the dictionary
@@ -92,6 +116,13 @@ impl<'a> Parser<'a> {
     // ============ STATEMENTS ============
 
     fn parse_statement(&mut self) -> Result<Statement, JsError> {
+        self.enter_nesting()?;
+        let result = self.parse_statement_unguarded();
+        self.nesting -= 1;
+        result
+    }
+
+    fn parse_statement_unguarded(&mut self) -> Result<Statement, JsError> {
         // Check for decorators first - they can precede class declarations
         if self.check(&TokenKind::At) {
             let decorators = self.parse_decorators()?;
@@ -298,6 +329,13 @@ impl<'a> Parser<'a> {
     }
 
     fn parse_binding_pattern(&mut self) -> Result<Pattern, JsError> {
+        self.enter_nesting()?;
+        let result = self.parse_binding_pattern_unguarded();
+        self.nesting -= 1;
+        result
+    }
+
+    fn parse_binding_pattern_unguarded(&mut self) -> Result<Pattern, JsError> {
         match &self.current.kind {
             TokenKind::Identifier(_) => {
                 let id = self.parse_identifier()?;
@@ -2098,6 +2136,13 @@ impl<'a> Parser<'a> {
     }
 
     fn parse_assignment_expression(&mut self) -> Result<Expression, JsError> {
+        self.enter_nesting()?;
+        let result = self.parse_assignment_expression_unguarded();
+        self.nesting -= 1;
+        result
+    }
+
+    fn parse_assignment_expression_unguarded(&mut self) -> Result<Expression, JsError> {
         // Check for yield expression
         if self.check(&TokenKind::Yield) {
             return self.parse_yield_expression();
@@ -2192,6 +2237,13 @@ impl<'a> Parser<'a> {
 
     /// Pratt parser for binary expressions
     fn parse_binary_expression(&mut self, min_prec: u8) -> Result<Expression, JsError> {
+        self.enter_nesting()?;
+        let result = self.parse_binary_expression_unguarded(min_prec);
+        self.nesting -= 1;
+        result
+    }
+
+    fn parse_binary_expression_unguarded(&mut self, min_prec: u8) -> Result<Expression, JsError> {
         let start = self.current.span;
         let mut left = self.parse_unary_expression()?;
 
@@ -2238,6 +2290,13 @@ impl<'a> Parser<'a> {
     }
 
     fn parse_unary_expression(&mut self) -> Result<Expression, JsError> {
+        self.enter_nesting()?;
+        let result = self.parse_unary_expression_unguarded();
+        self.nesting -= 1;
+        result
+    }
+
+    fn parse_unary_expression_unguarded(&mut self) -> Result<Expression, JsError> {
         let start = self.current.span;
 
         if let Some(op) = self.current_unary_op() {
@@ -3629,6 +3688,13 @@ impl<'a> Parser<'a> {
     // ============ TYPE ANNOTATIONS ============
 
     fn parse_type_annotation(&mut self) -> Result<TypeAnnotation, JsError> {
+        self.enter_nesting()?;
+        let result = self.parse_type_annotation_unguarded();
+        self.nesting -= 1;
+        result
+    }
+
+    fn parse_type_annotation_unguarded(&mut self) -> Result<TypeAnnotation, JsError> {
         self.parse_conditional_type()
     }
 
